@@ -29,6 +29,23 @@ impl IgnoreFile {
     /// Check if the given path should be ignored.
     pub(crate) fn is_ignored(&self, path: &Path) -> bool {
         let is_dir = path.is_dir();
-        self.ignore.matched(path, is_dir).is_ignore()
+        // Patterns are relative to the root of the ignore file.
+        let relative = path.strip_prefix("./").unwrap_or(path);
+        let relative = relative
+            .strip_prefix(self.ignore.path())
+            .unwrap_or(relative);
+        if relative.has_root() {
+            // Outside of the root there are no parents to check.
+            return self.ignore.matched(path, is_dir).is_ignore();
+        }
+        // As in gitignore, a path is ignored when it or one of its parent directories is
+        // (e.g. `temp/` ignores every file below any directory named temp).
+        relative
+            .ancestors()
+            .filter(|candidate| !candidate.as_os_str().is_empty())
+            .any(|candidate| {
+                let is_dir = is_dir || candidate != relative;
+                self.ignore.matched(candidate, is_dir).is_ignore()
+            })
     }
 }
